@@ -400,7 +400,7 @@ Definition parse_one_state (fuel : nat) (l : lx) : PR astat :=
   end.
 
 (* fuel that is always enough for one line (Proofs/AnnTotal.v) *)
-Definition fuel_of (line : bytes) : nat := 6 * length line + 16.
+Definition fuel_of (line : bytes) : nat := 6 * length line + 24.
 
 (* ParserLine: `line` is the lexer's chunk, i.e. the comment text after the "-@" head.
    inl = the statement, inr = the recovered ParseAnnotateErr (the statement is then AnnotateNotValidState). *)
